@@ -996,7 +996,8 @@ def gen_clmem(src_dir):
 ENC_FNS = ['emit1', 'emit2', 'emit4', 'emit8', 'emit_modrm', 'emit_modrm_reg2reg', 'emit_modrm_and_displacement', 'emit_rex',
            'emit_basic_rex', 'emit_push', 'emit_pop', 'emit_alu32', 'emit_alu32_imm32', 'emit_alu32_imm8', 'emit_alu64',
            'emit_alu64_imm32', 'emit_alu64_imm8', 'emit_mov', 'emit_cmp_imm32', 'emit_cmp', 'emit_cmp32_imm32', 'emit_cmp32',
-           'emit_load', 'emit_load_imm', 'emit_store', 'emit_store_imm32', 'emit_direct_jcc', 'emit_call']
+           'emit_load', 'emit_load_imm', 'emit_store', 'emit_store_imm32', 'emit_direct_jcc', 'emit_call',
+           'emit_jump_offset', 'emit_jcc', 'emit_jmp']
 RUST_TY = {'u8': 'U8', 'u16': 'U16', 'u32': 'U32', 'u64': 'U64', 'i8': 'I8', 'i16': 'I16', 'i32': 'I32', 'i64': 'I64', 'usize': 'USZ',
            'isize': 'ISZ', 'OperandSize': 'U8'}
 TY_BYTES = {'u8': 1, 'u16': 2, 'u32': 4, 'u64': 8}
@@ -1135,6 +1136,10 @@ def gen_jitenc(src_dir):
         em.expr = expr
 
         def hook(tr, st, k, mode, names, em=em):
+            if st[0] == 'let' and st[3] is not None and st[3][0] == 'struct' and show(st[3][1] if isinstance(st[3][1], tuple) else ('path', st[3][1])).endswith('Jump'):
+                return k()          # the record pushed on self.jumps (the fix-up list is modelled in the JitLogic unit)
+            if st[0] in ('stmt', 'tail') and st[1][0] == 'mcall' and show(st[1][1]).replace(' ', '') == 'self.jumps' and st[1][2] == 'push':
+                return k()
             if st[0] in ('stmt', 'tail'):
                 e = st[1]
                 if e[0] == 'mcall' and show(e[1]) == 'self' and e[2] in ENC_FNS and e[3] and show(e[3][0]) == 'mem':
@@ -1540,4 +1545,153 @@ def gen_clmisc(src_dir):
             done.add('call')
     if done != {'end', 'lddw', 'call'}:
         raise Unsupported("arms found: %s" % sorted(done))
+    return ''.join(out)
+
+
+# ------------------------------------------------------------------ src/jit.rs: emit_muldivmod (mul / div / mod sequences)
+
+XI_SEQ = dict(XI_OF)
+XI_SEQ.update({'emit_push': ('XPush', 1), 'emit_pop': ('XPop', 1), 'emit_rex': ('XRex', 4), 'emit_direct_jcc': ('XJccRel', 2),
+               'emit_jmp': ('XJmpPc', 1), 'emit_jcc': ('XJccPc', 2)})
+
+
+def gen_jitmuldiv(src_dir):
+    env, _ = U.read_consts(src_dir)
+    toks = U.load(src_dir, 'jit.rs')
+    consts = {}
+    for name, ty, e_, line in R.consts(toks):
+        try:
+            consts[name] = U.eval_const(e_, {})
+        except Unsupported:
+            pass
+    sig, body = R.parse_fn(toks, 'emit_muldivmod')
+    params = [n for n, t in fn_params(sig) if n != 'mem']
+    if params != ['pc', 'opc', 'src', 'dst', 'imm']:
+        raise Unsupported("emit_muldivmod parameters %s" % params)
+    locs = set(params)
+
+    def ex(e):
+        """-> Coq term (Z or bool; the Rust types decide, casts between integer types are the identity on the
+        ranges of the theorem: pc below 2^62, registers below 16, imm an i32)"""
+        k = e[0]
+        if k == 'paren':
+            return ex(e[1])
+        if k == 'num':
+            return str(e[1])
+        if k == 'path':
+            n = e[1]
+            if n in locs:
+                return n
+            if n in consts:
+                return str(consts[n])
+            if n.startswith('ebpf::') and n[6:] in env:
+                return str(env[n[6:]][1])
+            if n in ('true', 'false'):
+                return n
+            raise Unsupported("emit_muldivmod: name %s" % n)
+        if k == 'as':
+            if R.tyname(e[2]) not in ('i64', 'isize', 'usize', 'u64'):
+                raise Unsupported("emit_muldivmod: cast to %s" % R.tyname(e[2]))
+            return ex(e[1])
+        if k == 'un' and e[1] == '!':
+            return '(negb %s)' % ex(e[2])
+        if k == 'bin':
+            a, b = ex(e[2]), ex(e[3])
+            op = e[1]
+            if op == '==':
+                return '(%s =? %s)' % (a, b)
+            if op == '!=':
+                return '(negb (%s =? %s))' % (a, b)
+            if op == '&&':
+                return '(%s && %s)' % (a, b)
+            if op == '||':
+                return '(%s || %s)' % (a, b)
+            if op == '&':
+                return '(Z.land %s %s)' % (a, b)
+            if op == '+':
+                return '(%s + %s)' % (a, b)
+            raise Unsupported("emit_muldivmod: operator %s" % op)
+        if k == 'if':
+            def val(b):
+                if b[0] == 'block' and len(b[1]) == 1 and b[1][0][0] == 'tail':
+                    return ex(b[1][0][1])
+                raise Unsupported("emit_muldivmod: if-expression arm")
+            return '(if %s then %s else %s)' % (ex(e[1]), val(e[2]), val(e[3]))
+        if k == 'match' and e[1][0] == 'mcall' and show(e[1][1]) == 'self' and e[1][2] == 'basix_rex_would_set_bits':
+            args = ' '.join(ex(a) for a in e[1][3])
+            arms = {a[0][1]: ex(a[2]) for a in e[2] if a[0][0] == 'ppath'}
+            if set(arms) != {'true', 'false'}:
+                raise Unsupported("emit_muldivmod: match arms")
+            return '(match gen_basix_rex_would_set_bits %s with Ok true => %s | Ok false => %s | _ => 0 end)' % (args, arms['true'], arms['false'])
+        raise Unsupported("emit_muldivmod: expression %s" % show(e)[:50])
+
+    def returns(block):
+        sts = block[1]
+        return bool(sts) and sts[-1][0] in ('stmt', 'tail') and sts[-1][1][0] == 'return' and sts[-1][1][1] is None
+
+    def seq(sts):
+        if not sts:
+            return '[]'
+        st, rest = sts[0], sts[1:]
+        if st[0] == 'let' and st[1][0] == 'ppath':
+            locs.add(st[1][1])
+            return '(let %s := %s in\n  %s)' % (st[1][1], ex(st[3]), seq(rest))
+        if st[0] in ('stmt', 'tail'):
+            e = st[1]
+            if e[0] == 'return' and e[1] is None:
+                if rest:
+                    raise Unsupported("emit_muldivmod: code after return")
+                return '[]'
+            if e[0] == 'if':
+                c = ex(e[1])
+                if e[2][0] != 'block' or (e[3] is not None and e[3][0] != 'block'):
+                    raise Unsupported("emit_muldivmod: else-if")
+                if returns(e[2]):
+                    if e[3] is not None:
+                        raise Unsupported("emit_muldivmod: return with else")
+                    return '(if %s then %s else\n  %s)' % (c, seq(list(e[2][1])), seq(rest))
+                t = seq(list(e[2][1]))
+                f = seq(list(e[3][1])) if e[3] is not None else '[]'
+                return '((if %s then %s else %s) ++\n  %s)' % (c, t, f, seq(rest))
+            if e[0] == 'mcall' and show(e[1]) == 'self' and e[2] in XI_SEQ and show(e[3][0]) == 'mem':
+                ctor, n = XI_SEQ[e[2]]
+                if len(e[3]) - 1 != n:
+                    raise Unsupported("%s arity" % e[2])
+                return '(%s %s :: %s)' % (ctor, ' '.join(ex(a) for a in e[3][1:]), seq(rest))
+        raise Unsupported("emit_muldivmod: statement %s" % show(st[1] if st[0] != 'let' else st[3])[:50])
+    term = seq(list(body[1]))
+    # the call sites: which opcodes go through it, and with which arguments
+    _, fbody = R.parse_fn(toks, 'jit_compile')
+    arms = []
+
+    def walk(e):
+        if isinstance(e, tuple) and e and e[0] == 'match' and show(e[1]) == 'insn.opc' and len(e[2]) > 50:
+            arms.extend(e[2])
+            return
+        if isinstance(e, (tuple, list)):
+            for x in e:
+                walk(x)
+    walk(fbody)
+    ops = []
+    for pat, guard, b, ln, attrs in arms:
+        if 'emit_muldivmod' not in show(b):
+            continue
+        while b[0] == 'block' and len(b[1]) == 1:
+            b = b[1][0][1]
+        if not (b[0] == 'mcall' and show(b[1]) == 'self' and b[2] == 'emit_muldivmod' and
+                [show(a).replace(' ', '') for a in b[3]] == ['mem', 'insn_ptr', 'insn.opc', 'src', 'dst', 'insn.imm']):
+            raise Unsupported("emit_muldivmod call site: %s" % show(b)[:80])
+        alts = pat[1] if pat[0] == 'por' else [pat]
+        for a in alts:
+            n = a[1].split('::')[-1]
+            if a[0] != 'ppath' or n not in env:
+                raise Unsupported("emit_muldivmod call site pattern")
+            ops.append(env[n][1])
+    if len(ops) != 12:
+        raise Unsupported("%d opcodes go through emit_muldivmod (12 expected)" % len(ops))
+    out = [U.HDR % 'src/jit.rs (emit_muldivmod: the x86 sequence for mul / div / mod, and the opcodes jit_compile sends through it)',
+           "From RbpfV Require Import Ebpf X86Sem.\nFrom RbpfV.gen Require Import Opcodes JitEnc.\n\n",
+           "(* called as emit_muldivmod(mem, insn_ptr, insn.opc, src, dst, insn.imm) with src, dst the x86 registers of the operands *)\n",
+           "Definition gen_jit_muldivmod (pc opc src dst imm : Z) : list xi :=\n  %s.\n\n" % term,
+           "Definition gen_jit_muldiv_ops : list Z := [%s].\n" % '; '.join(str(o) for o in ops)]
     return ''.join(out)
